@@ -496,6 +496,16 @@ def sz345(F, R, roundtrip=True):
     else:
         R.bad("SZ4", "SZ4/Sodg::load/input-not-the-whole-file", de.where(),
               "load() does not decode exactly the complete content of the file at `path`", {"input": show(da, load), "path": show(ra, load)})
+    # load() refuses nothing by itself: every Err it returns is the propagated failure of the file read or of the decode.  A check of
+    # its own before the decode (a size bound, a magic number) refuses some image that save() wrote — unless it can never fire, which
+    # is a fact about values no rule here establishes (fail closed)
+    for site, kind, st in (load.sites() if roundtrip else ()):
+        if kind == "stmt" and st["k"] == "assign" and st["rv"]["k"] == "aggregate" and st["rv"].get("variant") == "Err" and not st.get("exp"):
+            if not any(x[0] == "in" and x[2] <= frozenset(["Continue", "Ok"]) and mentions_call(x[1], de) for x in load.facts_at(site)):
+                R.bad("SZ4", "SZ4/Sodg::load/own-error-before-decode", load.where(site),
+                      "load() builds an Err of its own before the image is decoded (a size or format check): an image written by save() "
+                      "can be refused — e.g. the small image of a graph of capacity 1",
+                      {"guards": [show(f, load)[:120] for f in load.facts_at(site) if "Level" not in repr(f)][:5]})
     # once the image has been decoded, load() succeeds: no Err is produced on a path on which the decode call returned Ok
     for site, kind, st in (load.sites() if roundtrip else ()):
         is_err = kind == "stmt" and st["k"] == "assign" and st["rv"]["k"] == "aggregate" and st["rv"].get("variant") == "Err"
